@@ -192,6 +192,9 @@ func (dist *GevDistribution) ImportConfig(config ConfigDistribution, t ScalarTyp
   if parameters, ok := config.GetParametersAsFloats(); !ok {
     return fmt.Errorf("invalid config file")
   } else {
+    if len(parameters) != 3 {
+      return fmt.Errorf("invalid config file")
+    }
     mu    := NewScalar(t, parameters[0])
     sigma := NewScalar(t, parameters[1])
     xi    := NewScalar(t, parameters[2])
